@@ -7,7 +7,7 @@ sys.path.insert(0, V)
 
 TECH = {
  'C01': 'wire-shape inference over typed THIR (rustc_private driver) compared with a transcribed SCALE table; callee census for endianness; TYPE_INFO table agreement; premises: derive corpus (C05), entry-point agreement and Output sinks (C07)',
- 'C02': 'encoder/decoder mirror over inferred wire terms; vector-kernel conservation rules; array / in-place entry-point rules (no shortcut exits, decode_into performs the effects of decode); state-coverage of foreign ADT fields; premises: derive corpus, TYPE_INFO census, Input impl shapes',
+ 'C02': 'encoder/decoder mirror over inferred wire terms; vector-kernel conservation rules; array / in-place entry-point rules (no shortcut exits, decode_into — overrides and the trait default — performs the effects of decode on every path); state-coverage of foreign ADT fields; premises: derive corpus, TYPE_INFO census, Input impl shapes',
  'C03': 'strict-tag dispatch and validation-guard rules on decoder terms (guards evaluated at boundary values); MIR panic-site census over all functions reachable from decoding entry points, discharged by dominating-branch facts with kill checks, an interval evaluator and an audited table (panic-capable callees classified from the `# Panics` sections of rust-src / registry sources); error-propagation discipline; termination of loops',
  'C04': 'table agreement between compact encoder, length function and decoder by abstract evaluation of the branch conditions and written values at boundary values and every first byte; MIR panic-site census restricted to the compact module; premises: length peek / skip (C18), declared maximum lengths (C13 R13.1), fixed-buffer sink and entry-point agreement (C07 R07.1/R07.3)',
  'C05': 'translation validation of derive output: generated impls of a generated corpus (all index sources and literal spellings, 256 variants, custom encoded_as types, split attributes, transparent structs, same-type variants with different attributes) analysed by the same wire-shape inference against an independent layout oracle; index dispatch probed per byte value; path-sensitive in-place decode rule; premises: generated where-clauses and hygiene (C17 W17.4/W17.5 compile witnesses)',
@@ -15,14 +15,14 @@ TECH = {
  'C07': 'sibling agreement of wire terms inferred independently per entry point (library impls and derived impls of the corpus; encoded_size only as a pure forward); shape rules for Output sinks (both configurations) and trait defaults; Joiner / KeyedVec pass on the whole callback slice',
  'C08': 'forwarding rules on every Input impl (typed THIR), construct-site census, taint of remaining_len results plus soundness of rejections (exact byte need only), acceptance of cursor reads decided by evaluating guards at boundary values; premise: depth balance (C11)',
  'C09': 'allocation-sink census on decoding paths (named sinks and any sized constructor of a heap container) with taint/sanitiser classification of size arguments; progress rule on element shapes',
- 'C10': 'unsafe-operation census plus initialisation typestate on decoder terms (drop guard, boxed path incl. the leak window between raw allocation and ownership, no shortcut success exits), compile witnesses for DecodeFinished; premise: in-place entry points (C02 R02.5)',
- 'C11': 'descend/ascend pairing typestate over all paths of decoder terms; who-descends table and cost of one wrapper level followed through associated types and delegation; tracker shape; call-graph cycle check; premises: wrapper forwarding (C08 R08.1), in-place entry points (C02 R02.5)',
+ 'C10': 'unsafe-operation census plus initialisation typestate on decoder terms (drop guard, boxed path incl. the leak window between raw allocation and ownership, no shortcut success exits; the default in-place entry point path by path), compile witnesses for DecodeFinished; premise: in-place entry points (C02 R02.5)',
+ 'C11': 'descend/ascend pairing typestate over all paths of decoder terms; who-descends table (inline aggregates neither descend nor use the item kernel; the kernel bracket decided on its entry point with helpers inlined) and cost of one wrapper level followed through associated types and delegation; tracker shape; call-graph cycle check; premises: wrapper forwarding (C08 R08.1), in-place entry points (C02 R02.5)',
  'C12': 'accumulator shape rule, hook-before-allocation path rule with amount agreement (count * size_of, growth loops within the reservation) on decoder terms, marker-bound rule over the impl table (lifetime-insensitive, fail closed), B-tree estimate by evaluation; premises: wrapper forwarding (C08 R08.1), marker enforcement through representation types (C17 W17.3)',
  'C13': 'abstract interpretation of declared length expressions against maxlen of the inferred wire shape; marker-trait shape rules',
  'C14': 'dominance/shape rules on slice Input::read and the consume-all entry points; sequential tuple decoding rule; premises: the mirror rules of C02 / C05, the Input impl shapes and remaining_len discipline of C08 (R08.3/R08.4), depth balance (C11)',
  'C15': 'lossy-cast guard rule on THIR of every encoder and of append_or_new_impl, prefix-codec agreement and rewrite-shape rules (every path over non-empty input validates or rewrites the count); premises: fixed-buffer sink (C07), compact tables (C04)',
  'C16': 'equality of type-level wire shapes for every declared EncodeLike pair under the impl hypotheses; premises: TYPE_INFO census, entry-point agreement (C07 R07.1), validation guards incl. the bit-length limit on the encoder side (C03 R03.2), zero-copy cursor (C08 R08.4)',
- 'C17': 'compile-only witness programs with compiling twins (rustc front end) against the artefacts of the current tree, verdict by error code and span root: index rules, variant count, attribute conflicts (separate and combined lists), unions, CompactAs shapes, generated where-clauses for generic definitions, name hygiene of generated items (names read off the corpus facts); the derive corpus must compile',
+ 'C17': 'compile-only witness programs with compiling twins (rustc front end) against the artefacts of the current tree, verdict by error code and span root: index rules, variant count, attribute conflicts (separate and combined lists), unions, CompactAs shapes, generated where-clauses for generic definitions, name hygiene of generated items (names read off the corpus facts); the derive corpus must compile; derive macros re-exported from the resolved crate root per feature configuration (derive alone, all features, none)',
  'C18': 'first-event agreement between DecodeLength and Decode terms; skip-override census and mirror (library and derive corpus); premise: length narrowing on encoding paths is range-checked (C15 R15.1)',
  'C19': 'shape and path rules on the two counting methods of CountedInput (typed THIR); premises: failed reads of the provided inputs deliver nothing (C14 R14.1, C08 R08.4)',
  'C20': 'differential static analysis: normalised THIR of every body compared across feature configurations (default, no-default, all optional with and without std) with an audited exception set whose members are checked for equal effect (Output sinks by C07 R07.3, std-only input by C08); no inspection or comparison of Error values',
